@@ -22,6 +22,7 @@ macro_rules! dispatch {
             "C12" => fw::$f::<props::c12::C12>($($arg),*),
             "C13" => fw::$f::<props::c13::C13>($($arg),*),
             "C14" => fw::$f::<props::c14::C14>($($arg),*),
+            "C15" => fw::$f::<props::c15::C15>($($arg),*),
             "C16" => fw::$f::<props::c16::C16>($($arg),*),
             "C17" => fw::$f::<props::c17::C17>($($arg),*),
             "C18" => fw::$f::<props::c18::C18>($($arg),*),
